@@ -206,6 +206,19 @@ ManifestNext == /\ ~st.done
                       /\ \E i \in 1..Len(Pool) : st' = [st EXCEPT !.es = Append(@, Pool[i])]
                    \/ /\ Len(st.es) >= 1
                       /\ \E sty \in Styles : st' = [st EXCEPT !.sty = sty, !.done = TRUE] /\ PrintT(ToJson(ManifestRec(st.es, sty)))
+\* Manifests in which a node carries an explicit tag contradicting its kind (a scalar or a mapping tagged !!seq, a collection
+\* tagged !!str): no list of path strings, whatever the tag says - "rejected ..., never silently filtered"
+OddManifests == <<
+  "schema: '1.2'\ncontents: !!seq ../evil.txt\n",
+  "schema: '1.2'\ncontents: !!seq {a.fga: ../b.fga}\n",
+  "schema: '1.2'\ncontents: !!seq {a.fga: b.fga}\n",
+  "schema: '1.2'\ncontents:\n  - !!str [a.fga]\n",
+  "schema: '1.2'\ncontents:\n  - !!str {a.fga: b.fga}\n",
+  "schema: !!str ['1.2']\ncontents:\n  - a.fga\n",
+  "contents: !!seq x.txt\nschema: \"1.2\"\n" >>
+OddInit == st \in 1..Len(OddManifests)
+OddNext == st > 0 /\ st' = 0 - st /\ PrintT(ToJson([rec |-> "odd", text |-> OddManifests[st], ok |-> FALSE]))
+OddOK == TRUE
 \* OneErrorPerOffender at the design level: the expected error set has one element per offending entry (positions are distinct)
 OneErrorPerOffender == st.done => LET r == ManifestRec(st.es, st.sty) IN
                           Cardinality(r.errors) = Cardinality({ i \in 1..Len(st.es) : st.es[i].kind # "ok" })
